@@ -133,7 +133,7 @@ def alphabet(tier, level):
         gaps = [None, 0, -2, 3, 8] if level >= 3 else [None, 0, -2, 3, 5, 6, 8]
         l1s = [6]
     else:
-        gaps = [None, 0, -2, 3, 8, 5, 6] if level >= 3 else [None, 0, -2, 1, 3, 5, 6, 8, 14]
+        gaps = [None, 0, -2, 3, 8, 5, 6, 1] if level >= 3 else [None, 0, -2, 1, 3, 5, 6, 8, 14]
         l1s = [6] if level >= 3 else [6, 9]
     out = []
     for l1 in l1s:
@@ -141,7 +141,7 @@ def alphabet(tier, level):
             for variant in ('clean', 'mm1hi', 'mm1lo', 'mm2'):
                 if variant == 'mm2' and gap is None:
                     continue
-                if level >= 3 and variant == 'mm1lo' and gap not in (None, -2):
+                if tier == 'quick' and level >= 3 and variant == 'mm1lo' and gap not in (None, -2):
                     continue
                 out.append([gap, variant, l1])
     return out
